@@ -37,7 +37,11 @@ def run(ctx):
              "spelling x ~70 destination types at top level; the same token in slice / array / map value / map key / struct field / "
              "pointer (1 and 3 deep) position; reference mode; interface{} under every LongType/RealType/MapType/ListType setting; "
              "lists, maps and objects (extra, missing, reordered, unknown fields, maps for objects, lists for maps, unregistered classes) "
-             "into ~40 container types; references to every referable construct through every converter, cycles; random structured "
+             "into ~60 container types (the list form also into maps whose values own storage); references to every referable construct "
+             "through every converter, cycles; the same cases through a stream decoder refilled afterwards and on an input slice "
+             "overwritten afterwards; strings over every UTF-8 lead-byte class in every string position (values, keys, field and class "
+             "names, chunked reader); every time token with time.Local at +05:00 and -09:30; the cost limits of *big.Int / *big.Rat "
+             "(refused side exactly, accepted side at 1e1000: stated exclusion, RUnspec beyond the limits); random structured "
              "values of depth <= 3; corpus of past findings. non-trivial = anything but the null token; distinct by (options, type, wire tree).")
     ctx.note("oracle", "extracted representable(denote w) judges the implementation's outcome on every case; position independence is "
              "checked on the implementation's own results (top level against each wrapper)")
